@@ -338,6 +338,40 @@ func TestC01(t *testing.T) {
 		}
 		httpserver.Port = oldPort
 	}
+	// the HTTP/2 clause (421) on a few site sets over TLS
+	if infra == nil && !hx.SelfTest() {
+		nh2, lim := 0, 4
+		if hx.Thorough() {
+			lim = 40
+		}
+		h2req := 0
+		for _, idx := range todo {
+			c := &cases[idx]
+			ok := len(c.Sites) >= 1 && len(c.Sites[0].H) >= 2 && c.Sites[0].H[0] != "*" && !hasIPLiteral(c)
+			for _, st := range c.Sites {
+				if st.H[0] == "" || st.Fb {
+					ok = false
+				}
+			}
+			if !ok || rnd.Intn(3) != 0 {
+				continue
+			}
+			n, bad, err := h2Check(c)
+			h2req += n
+			if err != nil {
+				infra = err
+				break
+			}
+			for _, b := range bad {
+				res.Add(hx.Mismatch{Key: "C01/h2/sites={" + siteSetKey(c) + "}/" + b[:strings.Index(b, ":")], What: b, Case: c})
+			}
+			if nh2++; nh2 >= lim {
+				break
+			}
+		}
+		res.AddExtra("tls_site_sets", nh2)
+		res.AddExtra("tls_requests", h2req)
+	}
 	res.AddExtra("requests_sent", requests)
 	res.AddExtra("noport_form_site_sets", nserial)
 	if infra != nil {
